@@ -6,7 +6,7 @@ import subprocess
 from .. import clirun, common
 from . import base
 
-OPS = ["G:A", "G:B", "R:A:pf", "R:A:an", "R:B:df", "F:A:1", "D", "X", "R:B:bn", "F:B:0", "R:A:df", "R:B:pf"]
+OPS = ["G:A", "R:C:pf", "R:A:pf", "R:A:an", "R:C:df", "F:A:1", "D", "X", "R:C:sf", "R:C:bn", "G:B", "R:B:df", "R:B:bn", "F:B:0", "R:A:df", "R:B:pf"]
 
 
 def worker(spec, timeout=300):
@@ -29,12 +29,12 @@ def run_hist(h):
 def run(chk, build):
     tier = chk.tier
     proofs_ok = base.proof_obligations(chk, build, ["Props/C14.v"], ["Globals"])
-    ops = OPS[:8] if tier == "quick" else OPS
+    ops = OPS[:10] if tier == "quick" else OPS
     maxlen = 3 if tier == "quick" else 4
     fresh = dict(clirun.parallel(baseline, ops))
     hists = [h for n in range(1, maxlen + 1) for h in itertools.product(ops, repeat=n)]
     if tier == "quick":
-        hists = [h for i, h in enumerate(hists) if len(h) < 3 or i % 2 == 0]
+        hists = [h for i, h in enumerate(hists) if len(h) < 3 or i % 3 == 0]
     oracle_failed = False
     for h, outs in clirun.parallel(run_hist, hists):
         chk.count(key=h, sample={"history": list(h)} if len(h) == 3 and len(chk.samples) < 3 else None)
